@@ -18,6 +18,7 @@ structure Ent where
   deleted : Bool
   refs : List (Nat × Nat)        -- (predicate id, target id), flattened in JSON order
   body : String                  -- canonical JSON of props and refs (opaque content)
+  arrs : List Nat := []          -- predicates whose value was given as an array (`"x"` and `["x"]` differ for reflect.DeepEqual)
   deriving DecidableEq, Repr
 
 /-- content equality as decided at write time (and by compaction). -/
@@ -183,9 +184,11 @@ def compactFrom (ds : Nat) : DB → VKey × Ent → List (VKey × Ent) → DB
     else if e.deleted = prev.2.deleted then
       -- references of a predicate that are identical to the previous version's and were written in
       -- another batch: the newer keys are redundant
-      let preds := (e.refs.map (·.1)).eraseDups.filter fun p => targetsOf e p == targetsOf prev.2 p
+      let preds := (e.refs.map (·.1)).eraseDups.filter fun p =>
+        targetsOf e p == targetsOf prev.2 p && e.arrs.contains p == prev.2.arrs.contains p
       let dead := (refKeysOf e ds k.t).filter fun r => preds.contains r.pred
-      let db' := if k.t ≠ prev.1.t then { db with refs := db.refs.filter fun r => !dead.contains r } else db
+      -- versions of one batch share their reference keys: a version that is not the last of its batch keeps them
+      let db' := if k.t ≠ prev.1.t && !rest.any (fun v => v.1.t == k.t) then { db with refs := db.refs.filter fun r => !dead.contains r } else db
       compactFrom ds db' (k, e) rest
     else compactFrom ds db (k, e) rest
 
